@@ -83,4 +83,16 @@ TEXTS = {
         level_text="Exploration over seeded source tries, requested key sets and follow-up update/delete sequences; each mirrored step compares root and weight of the partial and the full trie.",
         level_note="Trusted: the source trie itself as the reference (its own correctness is C09's subject). No fault kind applies.",
     ),
+    "C06": dict(
+        engine="cachesim", design_ref="DESIGN.md section 7 (C06)",
+        technique=SIM + " (ancestor-chain model of the block tree; soundness of every hit), including long chains beyond the real LRU capacities",
+        level_text="Exploration over seeded block trees, write/removal assignments and commit/lookup orders; every hit at every layer is compared with the block-tree model. Long-chain profiles reach the shipped capacities (no knob is altered).",
+        level_note="Trusted: the block-tree reference model. Known finding listed: per-key LRU eviction lets the walk return an older ancestor's value.",
+    ),
+    "C07": dict(
+        engine="cachesim", design_ref="DESIGN.md section 7 (C07)",
+        technique=SIM + " (visibility + completeness model) with a 'scribble on every exchanged value' aliasing fault on both directions of every Set/Get",
+        level_text="Exploration over seeded interleavings of set/remove/get/commit across several transaction and block caches with committed, uncommitted and abandoned ones, with mutable values (bytes and real trie nodes) that the harness mutates after every hand-over.",
+        level_note="Trusted: the visibility model; capacity exemption decided from the model, not from the implementation.",
+    ),
 }
